@@ -73,7 +73,8 @@ class SysCase:
             if self.dst_is_dir:
                 w.dst.fs_op([7, 0] + codec.enc_path(cfg.dst_path))
             elif self.dst_exists:
-                w.dst.fs_op([7, 1] + codec.enc_path(cfg.dst_path) + [5, 9, 9, 9, 9, 9])
+                # an older, LONGER file of that name (24 bytes): it has to be truncated when the Metadata arrives, also a late one
+                w.dst.fs_op([7, 1] + codec.enc_path(cfg.dst_path) + [24] + [9] * 24)
             self.put_ret = start_transfer(w, self.data)
             r = Runner(w, self.faults, max_rounds=self.max_rounds, extra_sm=self.extra_sm)
             r.hooks = [self._c01_hook(w)]
@@ -257,7 +258,14 @@ def c01_cases(tier, rng):
         # a user's cancel request at either entity, at any moment: no cancelled transfer may end as a reported success
         cancel = (rng.choice(["src", "src", "dst"]), rng.randint(0, 8)) if rng.random() < 0.25 else None
         yield SysCase(cfg, bytes(rng.getrandbits(8) for _ in range(size)), faults, extra_sm=rng.choice([0, 0, 1]),
-                      reject_round=reject, max_rounds=200, tag="c01", cancel=cancel)
+                      reject_round=reject, max_rounds=200, tag="c01", cancel=cancel, dst_exists=rng.random() < 0.25)
+    # the destination file exists already (longer) and the Metadata PDU arrives late: nothing of the old file may survive
+    for imm in (False, True):
+        for nlost in (1, 2):
+            for size in (5, 9):
+                cfg = campaign.rand_cfg(rng, mode=0, req_mode=None, imm_nak=imm, max_seg=4, max_packet=64, ack_limit=5, nak_limit=5)
+                yield SysCase(cfg, bytes(rng.getrandbits(8) for _ in range(size)), [Fault("s2d", i, "drop") for i in range(nlost)],
+                              max_rounds=300, tag="c01", dst_exists=True)
     # null / modular checksum (acknowledged mode, loss only): a lost range of two segments whose first retransmission is
     # lost again - only the lost-segment bookkeeping stands between a hole in the file and a reported success
     for ck in (15, 0):
